@@ -220,7 +220,9 @@ func worker(args []string) {
 	nsamples := fs.Int("samples", 0, "number of sample runs to include in the output")
 	hashes := fs.Bool("hashes", false, "emit per-run trace hashes (determinism self-test)")
 	until := fs.Uint64("until", 0, "session replay: ignore the budget and stop after executing this run index")
+	tier := fs.String("tier", "quick", "quick | thorough (thorough widens the generation bounds)")
 	fs.Parse(args)
+	work.Deep = *tier == "thorough"
 	if *until > 0 {
 		*budget = 24 * time.Hour
 	}
@@ -345,6 +347,7 @@ type Session struct {
 	Stride uint64 `json:"stride"`
 	Until  uint64 `json:"until"`
 	Build  string `json:"build"`
+	Tier   string `json:"tier,omitempty"`
 }
 
 type ReplayFile struct {
@@ -425,6 +428,9 @@ func replay(args []string) {
 func runSession(bin, sites string, ss *Session) (*work.Violation, error) {
 	a := []string{"worker", "-prop", ss.Prop, "-seed", fmt.Sprint(ss.Seed), "-from", fmt.Sprint(ss.From), "-stride", fmt.Sprint(ss.Stride),
 		"-until", fmt.Sprint(ss.Until), "-build", ss.Build}
+	if ss.Tier != "" {
+		a = append(a, "-tier", ss.Tier)
+	}
 	if sites != "" {
 		a = append(a, "-sites", sites)
 	}
